@@ -77,7 +77,7 @@ def gen_rigid_body(rng, stream):
 
 
 def gen_cases(rng, tier):
-    per = 14 if tier == "quick" else 120
+    per = 8 if tier == "quick" else 90
     cases = []
     for kind in sc.KINDS:
         for stream, share in (("random", 1.0), ("lattice", 0.6), ("exact", 0.4)):
@@ -87,6 +87,10 @@ def gen_cases(rng, tier):
                 if rng.random() < 0.25:
                     margin = rng.choice(sc.LATTICE) if stream in ("lattice", "exact") else 10 ** rng.uniform(-2, 1)
                 cases.append(dict(shape=sh, margin=margin))
+    # axes within 1e-3 .. 1e-8 rad of a coordinate axis: sqrt(1 - a*a) ~ angle, far above the tolerance
+    for kind in ("cylinder", "cone", "disk", "capsule", "ellipse", "box", "mesh"):
+        for _ in range(max(3, per // 3)):
+            cases.append(dict(shape=sc.gen_shape(rng, kind, "near"), margin=None))
     # poses orthonormal only up to 1 ulp (entries 1.0000000000000002): the radicand 1 - a*a hazard
     for kind in ("cylinder", "cone", "disk", "capsule", "ellipsoid", "box", "ellipse"):
         for _ in range(max(2, per // 4)):
@@ -164,6 +168,7 @@ def judge_case(case, r):
         return [("RigidBody.aabb", f) for f in judge_box(sh, None, r["aabb"], r, L, "RigidBody.aabb()")]
     L = sc.shape_L(sh, case["margin"] or 0.0)
     site = f"{sh['kind']}_aabb"
+    out += [(site + ".state", m) for m in (r.get("modified") or [])]
     name = f"{sh['kind'].capitalize()}.aabb()" if case["margin"] is None else f"Margin({sh['kind'].capitalize()}).aabb()"
     out += [(site, f) for f in judge_box(sh, case["margin"], r["aabb"], r, L, name)]
     if "free" in r:
@@ -292,7 +297,7 @@ def run(tier, seed, replay=None):
     known = load_known()
     R.cov["rule"] = ("case = one collider (10 kinds x streams random general position / lattice poses [24 axis permutations x "
                      "optional exact 45-degree factor, sizes and offsets from {1/4,1/2,1,2,4}] / 'composed' poses orthonormal "
-                     "only up to 1 ulp; 25% wrapped in Margin) -> collider.aabb() and the containment free function; plus "
+                     "only up to 1 ulp / 'near' poses = an axis permutation turned by 1e-3..1e-8 rad; 25% wrapped in Margin) -> collider.aabb() and the containment free function; plus "
                      "RigidBody.make_{box,cube,sphere,ellipsoid} at identity / translated / rotated / general poses -> "
                      "RigidBody.aabb(), for 60% observed a second time after express_in(identity or another pose) [cache "
                      "invalidation]; streams also include 'exact' (axis permutations only); the two documented witnesses are always included. distinct_nontrivial counts distinct "
